@@ -105,6 +105,26 @@ func c11(r *engine.Report, p *engine.Program) {
 	isKey := sameVarAs(key)
 	// the key is the announced ForwardingNode
 	kf, _ := engine.FieldOfLoad(key)
+	if kf != fwdNode {
+		// the session ID variable lives in a cell: every store into it is "" or the announced ForwardingNode
+		if u, isU := key.(*ssa.UnOp); isU {
+			if al, isAl := u.X.(*ssa.Alloc); isAl {
+				all, n := true, 0
+				for _, rr := range *al.Referrers() {
+					if st, isS := rr.(*ssa.Store); isS && st.Addr == ssa.Value(al) {
+						n++
+						f, _ := engine.FieldOfLoad(st.Val)
+						if s0, isC := engine.ConstString(st.Val); !(f == fwdNode) && !(isC && s0 == "") {
+							all = false
+						}
+					}
+				}
+				if all && n > 0 {
+					kf = fwdNode
+				}
+			}
+		}
+	}
 	r.Check("R2-admission", "runProtocol: table key is the announced ForwardingNode", ins.Pos(), kf == fwdNode,
 		"the connection is stored under ri.ForwardingNode of the decoded handshake message", "the table key is not the announced ForwardingNode")
 	isIns := func(in ssa.Instruction) bool { return in == ssa.Instruction(ins) }
